@@ -412,6 +412,66 @@ fn check(c: &Case, rep: &mut Rep) -> Result<(), String> {
     Ok(())
 }
 
+/// a file larger than the server's 512 KiB read buffer made of near-maximum messages: every message is delivered
+/// (a message that straddles a refill of the reader must be seen completely)
+fn large_file(v: &(Vec<(u16, u8)>, bool), rep: &mut Rep) -> Result<(), String> {
+    let (lens, sort) = v;
+    let sb = Sandbox::new("c16big");
+    let path = sb.path("big.dlt");
+    {
+        let mut w = std::io::BufWriter::new(std::fs::File::create(&path).map_err(|e| e.to_string())?);
+        for (i, (l, ch)) in lens.iter().enumerate() {
+            let len = 38_000 + (*l as usize % 27_400); // string of 38000..65400 bytes
+            let text: String = std::iter::repeat((b'a' + ch % 26) as char).take(len).collect();
+            let mut m = FMsg { ecu: 0, ext: Some((0x41, 0, 4)), lifecycle: 0, word: 0, text_preset: false, odd_ecu: None }.build(i as u32);
+            m.payload = string_payload(&text);
+            m.payload_text = None;
+            m.reception_time_us = BASE + i as u64 * 10_000_000;
+            m.timestamp_dms = i as u32 * 100_000;
+            m.to_write(&mut w).map_err(|e| e.to_string())?;
+        }
+        w.flush().map_err(|e| e.to_string())?;
+    }
+    let msgs: Vec<DltMessage> = {
+        let data = std::fs::read(&path).map_err(|e| e.to_string())?;
+        adlt::utils::get_dlt_message_iterator("dlt", 0, std::io::Cursor::new(data), 4242, None, None, None).collect()
+    };
+    let total = msgs.len();
+    ensure_eq!(total, lens.len(), "harness: file re-read");
+    let mut srv = Server::start(&sb.dir, None)?;
+    let mut s = Sess { c: Client::connect(srv.port)?, announced: vec![] };
+    let result = (|| -> Result<(), String> {
+        let r = s.cmd(&format!(r#"open {{"files":["{}"],"sort":{}}}"#, path.display(), sort))?;
+        ensure!(r.starts_with("ok:"), "open failed: {}", r);
+        let r = s.cmd(&format!(r#"stream {{"window":[0,{}],"binary":true}}"#, total + 5))?;
+        ensure!(r.starts_with("ok:"), "stream refused: {}", r);
+        let id = id_in_reply(&r).ok_or("no id")?;
+        ensure!(s.c.wait_for(Duration::from_secs(30), &|log| log.iter().any(|f| matches!(f, Frame::FileInfo(n) if *n as usize >= total))), "the server reports {:?} of the {} messages of the file", s.c.last_file_info(), total);
+        s.c.wait_for(Duration::from_secs(20), &|log| log.iter().map(|f| if let Frame::Msgs(i, m) = f { if *i == id { m.len() } else { 0 } } else { 0 }).sum::<usize>() >= total);
+        s.c.pump(Duration::from_millis(100));
+        let (got, _, _, _) = s.frames_of(id);
+        ensure_eq!(got.len(), total, "messages delivered for a {} KiB file", std::fs::metadata(&path).map(|m| m.len() / 1024).unwrap_or(0));
+        for (g, e) in got.iter().zip(msgs.iter()) {
+            ensure!(g.index == e.index && g.text == e.payload_as_text().unwrap_or_default(), "delivered message {} differs from the file's message {} (text {} vs {} bytes)", g.index, e.index, g.text.len(), e.payload_as_text().unwrap_or_default().len());
+        }
+        let r = s.cmd("close")?;
+        ensure!(r.starts_with("ok:"), "close failed: {}", r);
+        Ok(())
+    })();
+    let alive = srv.alive();
+    let stderr = srv.stderr_text();
+    drop(s);
+    drop(srv);
+    result?;
+    ensure!(alive && !stderr.contains("panicked"), "server died or panicked: {}", stderr.lines().rev().take(3).collect::<Vec<_>>().join(" / "));
+    rep.label("file_larger_than_read_buffer");
+    rep.nontrivial = true;
+    Ok(())
+}
+pub fn def_sub_large(tier: Tier) -> Box<dyn DynSub> {
+    sub("large_file", tier.pick(32, 600), (prop::collection::vec((any::<u16>(), any::<u8>()), 12..26), prop::bool::weighted(0.3)), large_file).shrink_iters(20).slow().boxed()
+}
+
 pub fn def_sub(tier: Tier) -> Box<dyn DynSub> {
     let simple = (prop_oneof![4 => Just(0u8), 2 => Just(1u8), 1 => Just(3u8)], prop::bool::weighted(0.9), 0u8..4).prop_flat_map(|(kind, enabled, what)| {
         let idc = |v: Vec<&'static str>| prop::sample::select(v).prop_map(|s| Some(IdCrit::Lit(s.to_string())));
